@@ -1,6 +1,6 @@
 #!/bin/bash
 # tools/refactor_matrix.sh: behaviour-preserving edits (seeded/refactors/*.diff) must never raise a VIOLATION (exit 0 or 2 only).
-V=/verif
+V=$(cd "$(dirname "$0")/.." && pwd)
 if [ "${SNAP:-0}" = 1 ]; then V=/tmp/verif-snap-rf; rm -rf $V; mkdir -p $V/build/kani; rsync -a --exclude build --exclude replays --exclude .git /verif/ $V/; rsync -a /verif/build/kani/cache $V/build/kani/; fi
 cd $V
 PROPS=$(python3 -c "import sys; sys.path.insert(0,'lib'); import props; print(' '.join(sorted(props.PROPS)))")
